@@ -10,14 +10,15 @@ from vlib import gcrun as G
 PLANS = list(G.PLANS)
 THEOREMS = ["Mmtk.IntPtr.isMmtkObject_iff", "Mmtk.IntPtr.isMmtkObject_eq", "Mmtk.IntPtr.isMmtkObject_valid", "Mmtk.IntPtr.findPrev_spec",
             "Mmtk.IntPtr.findObject_spec", "Mmtk.IntPtr.findFromInternal_spec", "Mmtk.IntPtr.findLos_spec",
-            "Mmtk.IntPtr.findLos_limit_partial", "Mmtk.IntPtr.los_limit_witness"]
+            "Mmtk.IntPtr.findLos_limit_partial", "Mmtk.IntPtr.los_limit_witness",
+            "Mmtk.IntPtr.findLos_none_of_no_vo", "Mmtk.IntPtr.findLos_reads_mapped_only", "Mmtk.IntPtr.hoisted_reads_unmapped"]
 KEYS = ("gc:findint-mismatch", "gc:ismo-missing", "gc:ismo-stale", "gc:findint-los-limit", "gc:findint-crash")
 CHUNK = 1 << 22
 USIZE_MAX = (1 << 64) - 1
 BIG_LIMITS = (1 << 20, 1 << 28, 1 << 32, 1 << 40, USIZE_MAX)
 LOS_NAMES = ("los", "pageprotect")
 META = {
-    "text": "Lookup model (Model/IntPtr.lean): `is_mmtk_object` (SFT dispatch + VO bit), the data-address view of `find_prev_non_zero_value_simple` on the VO bits with its mapped-grain cache, `vo_bit::find_object_from_internal_pointer` (+ `is_internal_ptr`), the per-policy wrappers (Immix / native mark-sweep cap the limit by the maximal object size, the empty SFT answers None) and the page walk of `LargeObjectSpace::find_object_from_internal_pointer`. Theorems for every bitmap: `isMmtkObject_iff` / `_valid` (Some(addr) iff the address is the reference of a valid object), `findPrev_spec` (nearest set bit at or below p, less than `limit` bytes below), `findFromInternal_spec` (with non-overlapping objects: o iff ref(o) <= p < start(o)+size(o) and p - ref(o) < n, else None), `findLos_spec` (first VO-set address of the nearest page >= align_down(p-n) with a non-zero first VO word, iff p is inside that object). Real heaps: after every forced exhaustive GC of generated programs on all 11 plans x {1,4} workers a probe list — per object: start, ref-8, ref, ref+8, a middle word, last word, one-past-end; gaps; page and chunk edges; 8, space start +-8, space end, usize::MAX & !7, side-metadata addresses, unaligned interior pointers; n in {1, 8, 9, size, 4096, 2^20} — is sent as `ismo` / `findint`; the Lean monitor evaluates the model on its valid-object set (snapshot + never-collected objects) with the chunk map asked through `ismapped`, an independent Python oracle evaluates the property statement.",
+    "text": "Lookup model (Model/IntPtr.lean): `is_mmtk_object` (SFT dispatch + VO bit), the data-address view of `find_prev_non_zero_value_simple` on the VO bits with its mapped-grain cache, `vo_bit::find_object_from_internal_pointer` (+ `is_internal_ptr`), the per-policy wrappers (Immix / native mark-sweep cap the limit by the maximal object size, the empty SFT answers None) and the page walk of `LargeObjectSpace::find_object_from_internal_pointer`. Theorems for every bitmap: `isMmtkObject_iff` / `_valid` (Some(addr) iff the address is the reference of a valid object), `findPrev_spec` (nearest set bit at or below p, less than `limit` bytes below), `findFromInternal_spec` (with non-overlapping objects: o iff ref(o) <= p < start(o)+size(o) and p - ref(o) < n, else None), `findLos_spec` (first VO-set address of the nearest page >= align_down(p-n) with a non-zero first VO word, iff p is inside that object), `findLos_none_of_no_vo` (no VO bit at or below p's page: None for EVERY limit, no hypothesis on what is mapped — a stale pointer into the lowest large object), `findLos_reads_mapped_only` (memory safety of the page walk as non-interference: with grain-uniform mapping the answer does not depend on VO words of unmapped pages; `hoisted_reads_unmapped` = decide-witness that testing is_mapped once before the loop breaks it). Real heaps: after every forced exhaustive GC of generated programs on all 11 plans x {1,4} workers a probe list — per object: start, ref-8, ref, ref+8, a middle word, last word, one-past-end; gaps; page and chunk edges; 8, space start +-8, space end, usize::MAX & !7, side-metadata addresses, unaligned interior pointers; n in {1, 8, 9, size, 4096, 2^20}; stale pointers: for large objects that were swept (always the lowest-addressed one ever allocated, a few others) start / reference / middle / last word / next page x n in {2^20, 2^28, 2^32, 2^40, usize::MAX}, and addresses in the LOS above every live large object, with `ismapped` asked for every mmap grain the walk enters; program class los-stale (lowest large object dies first, then all, then the pages are reused) — is sent as `ismo` / `findint`; a process that dies inside a `findint` is the violation gc:findint-crash (program = replay); the Lean monitor evaluates the model on its valid-object set (snapshot + never-collected objects) with the chunk map asked through `ismapped`, an independent Python oracle evaluates the property statement.",
     "note": "Level: proof of the lookup algorithm over arbitrary bitmaps, partial w.r.t. the code. Deviation kept under the stable key gc:findint-los-limit: the large-object space applies max_search_bytes to pages, so an interior pointer more than n bytes above the reference is still resolved (`los_limit_witness`, `findLos_limit_partial`). `is_mmtk_object` has the documented precondition addr != 0 and word-aligned (debug assertion): such addresses are only sent to `findint`.",
     "technique": "Lean 4 proof (search loops with explicit fuel, for all bitmaps) + exact differential of real lookups against the executable model + independent oracle",
     "category": "proof",
@@ -284,10 +285,14 @@ def stats(traces):
     for tr in traces:
         p = tr.program
         refs = {}
+        hist = los_history(tr.pairs)
+        lowest, insnap = (hist[0] if hist else None), {}
         for op, res in tr.pairs:
             t = op.split()
             if t[0] == "snap":
-                G._note_refs(res, refs)
+                insnap = {}
+                G._note_refs(res, insnap)
+                refs.update(insnap)
             elif t[0] == "findint":
                 ev += 1
                 bump("findint:" + ("object" if res not in ("none", "unsupported") and not res.startswith("panic") else res))
@@ -296,6 +301,11 @@ def stats(traces):
                     a = int(t[1], 16)
                     if refs.get(int(res)) != a:
                         nontriv.add((p.plan, p.workers, res, t[2], a & 0xfff))
+                elif res == "none" and int(t[2]) >= 1 << 28 and t[1].startswith("0x") and lowest is not None \
+                        and lowest[0] <= int(t[1], 16) < lowest[0] + lowest[2] and lowest[3] not in insnap:
+                    # the walk started inside the (dead) lowest large object: nothing below it, it ran to the space start
+                    bump("stale:lowest-los-object-walk-to-space-start")
+                    nontriv.add((p.plan, p.workers, "stale-lowest", t[2], (int(t[1], 16) - lowest[0]) & ~7))
             elif t[0] == "ismo":
                 ev += 1
                 bump("ismo:" + ("object" if res.isdigit() else res))
@@ -315,7 +325,7 @@ CORPUS = [
 ]
 MALFORMED = ["gcw reset", "gcw res ok", "gcw op findint", "gcw res none", "gcw op findint 0x10 8", "gcw res 7", "gcw op findint zz 8", "gcw res none",
              "gcw op ismapped 0x400000", "gcw res maybe", "gcw op spaces", "gcw res spaces a:zz:1,b", "gcw op findint 0x20000000010 8", "gcw res 3",
-             "gcw op ismo 0x18", "gcw res 9", "gcw bogus"]
+             "gcw op ismo 0x18", "gcw res 9", "gcw op findint 0x60000400008 18446744073709551615", "gcw res crash:rc=-11", "gcw bogus"]
 
 
 def los_limit_oracle(trace):
@@ -341,9 +351,10 @@ def oracle_all(trace):
 
 def main(argv=None):
     return W.run_check("C08", argv, ["MmtkModel.Props.C08"], THEOREMS, KEYS, make_suite, oracle_all, CORPUS, stats,
-                       rule="one evaluation = one `findint` / `ismo` probe compared with the model (Lean monitor) and with the property statement (oracle); non-trivial = a `findint` that resolved a pointer other than the object's reference to that object; distinct by (plan, workers, object, limit, page offset)",
+                       rule="one evaluation = one `findint` / `ismo` probe compared with the model (Lean monitor) and with the property statement (oracle); non-trivial = a `findint` that resolved a pointer other than the object's reference to that object, or a stale pointer into the swept lowest large object with a limit >= 2^28 (the walk runs to the start of the space) answered None; distinct by (plan, workers, object, limit, page offset)",
                        assumptions=["probes are sent right after a forced exhaustive GC + snapshot: the valid objects are the snapshot's objects plus the never-collected ones (no finalizers / soft references in these programs)",
                                     "`is_mmtk_object` precondition: addr != 0 and word-aligned (other addresses go to `findint` only)",
                                     "debug build: `find_prev_non_zero_value` asserts fast == simple, so the simple (reference) loop is what is modelled; max_search_bytes > 0",
-                                    "Map64 layout: one SFT per 2^41-byte slot (space names from `spaces`), mmapper granularity 4 MB (chunk states from `ismapped`)"],
+                                    "Map64 layout: one SFT per 2^41-byte slot (space names from `spaces`), mmapper granularity 4 MB (chunk states from `ismapped`, asked for every grain a walk enters; a grain is mapped as a whole)",
+                                    "a `findint` that kills the process (SIGSEGV / abort) is reported as gc:findint-crash, any other dead process as gc:crash"],
                        directives=DIRECTIVES, malformed=MALFORMED)
